@@ -91,10 +91,11 @@ type e1 struct {
 	liveIdx   []int
 	live2     *FeedLog
 	live2Idx  int
-	maxCas    uint64              // highest CAS seen on any document (including caller-supplied WithMeta values)
-	maxIssued uint64              // highest CAS handed out by the clock (regular writes)
-	clockBack uint64              // how far the HLC's physical clock has been set back (nanoseconds)
-	casHist   map[string][]uint64 // per coll/key: CAS values seen (for "stale")
+	maxCas    uint64                                // highest CAS seen on any document (including caller-supplied WithMeta values)
+	maxIssued uint64                                // highest CAS handed out by the clock (regular writes)
+	clockBack uint64                                // how far the HLC's physical clock has been set back (nanoseconds)
+	ddocs     map[int]map[string]map[string]viewDef // collection -> design doc -> view -> definition
+	casHist   map[string][]uint64                   // per coll/key: CAS values seen (for "stale")
 	ctx       OpCtx
 	res       *RunResult
 	step      int
@@ -329,6 +330,14 @@ func (e *e1) doOp(op *Op) *Violation {
 		return e.doAdvance(op)
 	case "Clock":
 		return e.doClock(op)
+	case "PutDDoc", "DelDDoc":
+		return e.doPutDDoc(op)
+	case "View":
+		return e.doView(op)
+	case "Query":
+		return e.doQuery(op)
+	case "RecreateColl":
+		return e.doRecreateColl(op)
 	}
 	ds, bucket, docs := e.target(op)
 	d := docs[op.Key]
@@ -916,5 +925,84 @@ func (e *e1) doAdvance(op *Op) *Violation {
 			}
 		}
 	}
+	return nil
+}
+
+// doRecreateColl drops a named collection and creates it again (C11): exactly its documents,
+// design documents and feeds go away, the new collection is empty, everything else is untouched
+// (the general read-back of the other collections follows as for every step).
+func (e *e1) doRecreateColl(op *Op) *Violation {
+	if op.Coll == 0 || op.Coll >= e.p.NColl {
+		return nil
+	}
+	b := e.w.Handles[0]
+	name := collNames[op.Coll]
+	if err := b.DropDataStore(name); err != nil {
+		return e.violate([]string{"C11"}, "drop.error", "step %d: DropDataStore(%s) failed: %v", e.step, name, err)
+	}
+	synctest.Wait()
+	e.logf("#%d RecreateColl(c%d)", e.step, op.Coll)
+	list, err := b.ListDataStores()
+	if err != nil {
+		return e.violate([]string{"C11"}, "drop.list", "step %d: ListDataStores failed after a drop: %v", e.step, err)
+	}
+	want := map[string]bool{}
+	for i := 0; i < e.p.NColl; i++ {
+		if i != op.Coll {
+			want[collNames[i].String()] = true
+		}
+	}
+	got := map[string]bool{}
+	for _, n := range list {
+		got[n.ScopeName()+"."+n.CollectionName()] = true
+	}
+	for n := range want {
+		if !got[n] {
+			return e.violate([]string{"C11"}, "drop.list", "step %d: after dropping %s the surviving collection %s is no longer listed (%v)", e.step, name, n, keysOfSet(got))
+		}
+	}
+	if got[name.String()] {
+		return e.violate([]string{"C11"}, "drop.list", "step %d: the dropped collection %s is still listed", e.step, name)
+	}
+	if !e.live[op.Coll].IsDone() {
+		return e.violate([]string{"C11", "C16"}, "drop.feed", "step %d: the feed of the dropped collection %s is still running", e.step, name)
+	}
+	for ci, f := range e.live {
+		if ci != op.Coll && f.IsDone() {
+			return e.violate([]string{"C11", "C16"}, "drop.other-feed", "step %d: dropping %s ended the feed of collection %d", e.step, name, ci)
+		}
+		if ci != op.Coll && len(f.Snapshot()) != e.liveIdx[ci] {
+			return e.violate([]string{"C11"}, "feed.isolation", "step %d: dropping %s delivered an event to the feed of collection %d", e.step, name, ci)
+		}
+	}
+	ds, err := b.NamedDataStore(name)
+	if err != nil {
+		return e.violate([]string{"C11"}, "recreate.error", "step %d: re-creating %s failed: %v", e.step, name, err)
+	}
+	e.w.Colls[0][op.Coll] = ds
+	e.docs[op.Coll] = map[string]Doc{}
+	if e.ddocs != nil {
+		delete(e.ddocs, op.Coll)
+	}
+	if dd, err := ds.(*rosmar.Collection).GetDDocs(); err != nil || len(dd) != 0 {
+		return e.violate([]string{"C11"}, "recreate.ddocs", "step %d: the re-created collection %s has design documents %v (err=%v)", e.step, name, dd, err)
+	}
+	e.feedN++
+	f, ferr := e.w.StartFeed(0, op.Coll, fmt.Sprintf("live%d-%d", op.Coll, e.feedN), sgbucket.FeedNoBackfill, false, false, "", nil)
+	if ferr != nil {
+		e.res.Trouble = "restart feed: " + ferr.Error()
+		return nil
+	}
+	e.live[op.Coll].Stop()
+	e.live[op.Coll] = f
+	e.liveIdx[op.Coll] = 0
+	synctest.Wait()
+	for _, k := range e.allKeys() {
+		if why, _, what := e.readKey(ds, b, e.docs[op.Coll], op.Coll, k); why != "" {
+			return e.violate([]string{"C11"}, "recreate.not-empty."+what, "step %d: the re-created collection %s is not empty: %s", e.step, name, why)
+		}
+	}
+	e.res.Stats.NonTrivial = true
+	e.probe("collection.recreated")
 	return nil
 }
